@@ -236,3 +236,55 @@ pub fn convert<T: Q, const N: usize>(pre: Pre, tables: Tables, g: Grp) {
     let mut o = q.into_other();
     post(&mut o, &want, g);
 }
+
+// ------------------------------------------------------------------------------------
+// the constructors that exist only with the default randomly keyed hasher (std):
+// `new()` and `with_capacity()`
+// ------------------------------------------------------------------------------------
+pub trait StdCtor: Q {
+    fn std_new() -> Self;
+    fn std_with_capacity(c: usize) -> Self;
+}
+impl StdCtor for crate::q::Pq<std::collections::hash_map::RandomState> {
+    fn std_new() -> Self {
+        Self::new()
+    }
+    fn std_with_capacity(c: usize) -> Self {
+        Self::with_capacity(c)
+    }
+}
+impl StdCtor for crate::q::Dq<std::collections::hash_map::RandomState> {
+    fn std_new() -> Self {
+        Self::new()
+    }
+    fn std_with_capacity(c: usize) -> Self {
+        Self::with_capacity(c)
+    }
+}
+
+pub fn ctor_std<T: StdCtor>(which: u8) {
+    let mut q = match which {
+        0 => T::std_new(),
+        1 => T::std_with_capacity(0),
+        _ => T::std_with_capacity(5),
+    };
+    if which >= 2 {
+        assert!(q.capacity() >= 5, "CAP: with_capacity reserves what was asked for");
+    }
+    assert!(q.peek_hi().is_none() && q.pop_hi().is_none(), "EMPTY: a fresh queue yields None");
+    let mut want = Tab::empty();
+    post(&mut q, &want, crate::step::ALL);
+    // and it works: two pushes (same or different items), then the maximum comes out
+    let (k1, k2) = (sym::below(4), sym::below(4));
+    let (p1, p2) = (sym::u8(), sym::u8());
+    assert!(q.push(Item::new(k1, 1), Pr(p1)).is_none());
+    want.set(k1, 1, p1);
+    let r = q.push(Item::new(k2, 2), Pr(p2));
+    assert!(r.map(|x| x.0) == if k1 == k2 { Some(p1) } else { None }, "RET: push returns the previous priority or None");
+    if k1 == k2 {
+        want.set(k2, 1, p2);
+    } else {
+        want.set(k2, 2, p2);
+    }
+    post(&mut q, &want, crate::step::ALL);
+}
